@@ -35,6 +35,9 @@ pub enum Base {
     Sends,
     /// the inbound stream of `Handlers` delivered one byte per write (fault at every byte offset)
     Bytes,
+    /// as `Sends`, but the window slot is held by a publish sent through the non-blocking API
+    /// (publish_ack_cb installed), with one send and one ready() future parked behind it
+    SendsCb,
     /// the application is streaming an outbound QoS 1 publish: header and first chunk written, second chunk owed
     OutStream,
     /// write back-pressure active: the peer does not read, the small write buffer is over its high
@@ -94,6 +97,7 @@ fn script_for(cfg: &TdCfg) -> Vec<BaseStep> {
             let cut = b.len() - 4;
             vec![BaseStep::SendRaw(b[..cut].to_vec())]
         }
+        Base::SendsCb => vec![BaseStep::StartSender(0, SK::Q1NoBlock), BaseStep::StartSender(1, SK::Q1), BaseStep::StartSender(2, SK::Ready)],
         Base::OutStream => vec![BaseStep::StartSender(0, SK::Stream { qos: 1, size: 6, plan: 1 }), BaseStep::Chunk(0), BaseStep::StartSender(1, SK::Q1)],
         Base::Backpressure => vec![
             BaseStep::Send(rf::publish(1, 1, "t", &[0xC1])),
@@ -157,7 +161,7 @@ impl Scenario for Td {
     fn build(cfg: &TdCfg) -> Pin<Box<dyn Future<Output = Self>>> {
         let cfg = cfg.clone();
         Box::pin(async move {
-            let props = if cfg.ep.ver == Ver::V5 && cfg.ep.role == Role::Server && cfg.base == Base::Sends { vec![(0x21, PVal::U16(1))] } else { vec![] };
+            let props = if cfg.ep.ver == Ver::V5 && cfg.ep.role == Role::Server && matches!(cfg.base, Base::Sends | Base::SendsCb | Base::OutStream) { vec![(0x21, PVal::U16(1))] } else { vec![] };
             let conn = start_endpoint(&cfg.ep, props, true).await;
             let app: App = std::rc::Rc::new(std::cell::RefCell::new((0..4).map(|_| SenderSt::default()).collect()));
             ntex_util::time::vclock::advance(Duration::from_millis(100));
@@ -368,7 +372,7 @@ pub fn configs(tier: Tier) -> Vec<TdCfg> {
     let mut v = Vec::new();
     let causes = [Cause::PeerClose, Cause::ReadErr, Cause::WriteErr, Cause::Garbage, Cause::ProtoViolation, Cause::HandlerErr, Cause::ProtoErr, Cause::KeepAlive, Cause::Close, Cause::ForceClose];
     for (ver, role) in crate::c05::roles() {
-        for base in [Base::Handlers, Base::Streaming, Base::Sends, Base::Bytes, Base::Backpressure, Base::OutStream] {
+        for base in [Base::Handlers, Base::Streaming, Base::Sends, Base::SendsCb, Base::Bytes, Base::Backpressure, Base::OutStream] {
             for cause in causes {
                 if base == Base::Bytes && !matches!(cause, Cause::PeerClose | Cause::ReadErr | Cause::ForceClose | Cause::Garbage) {
                     continue;
@@ -396,7 +400,7 @@ pub fn configs(tier: Tier) -> Vec<TdCfg> {
                     // the client's own keep-alive is a ping task (C20); inbound keep-alive expiry is a server notion
                     continue;
                 }
-                if base == Base::Sends || base == Base::OutStream {
+                if base == Base::Sends || base == Base::SendsCb || base == Base::OutStream {
                     ep = crate::outbound::ep_for(ep, 1, false);
                     ep.handler_auto = false;
                 }
@@ -418,7 +422,7 @@ pub fn run(tier: Tier) -> i32 {
         ck.explore::<Td>("teardown", i, c, &ecfg);
     }
     ck.rule = format!(
-        "4 roles x 6 base schedules (an outbound QoS 1 publish being streamed by the application - header and first chunk written, second chunk owed, another sender parked behind it; write back-pressure active - peer not reading, 16-byte write buffer over its high watermark, a publish handler in flight - with the peer reading again after the fault; the publish/subscribe stream delivered one byte per write for peer close / read error / force-close at every byte offset; two gated publish handlers + gated SUBSCRIBE; streamed PUBLISH half received with the handler blocked in read(); one send awaiting its ack + one parked on the window + one ready() future) x 10 termination causes (peer close, read error, write error, undecodable bytes, protocol-violating packet, publish handler error, protocol handler error, keep-alive expiry, sink.close(), sink.force_close()); the cause is injected before/after every step of the base schedule at quiescence and, with {} deviation(s), between any two task polls; afterwards virtual time advances up to 60 s and gates are never opened; oracle: exactly one Stop of the class the statement assigns to the cause, connection task completed, every send/ready future resolved, blocked reader saw an error or was cancelled, handlers cancelled only after the Stop was handled, nothing left executing",
+        "4 roles x 7 base schedules (the window slot held by a publish sent through the non-blocking API with a send and a ready() future parked behind it; an outbound QoS 1 publish being streamed by the application - header and first chunk written, second chunk owed, another sender parked behind it; write back-pressure active - peer not reading, 16-byte write buffer over its high watermark, a publish handler in flight - with the peer reading again after the fault; the publish/subscribe stream delivered one byte per write for peer close / read error / force-close at every byte offset; two gated publish handlers + gated SUBSCRIBE; streamed PUBLISH half received with the handler blocked in read(); one send awaiting its ack + one parked on the window + one ready() future) x 10 termination causes (peer close, read error, write error, undecodable bytes, protocol-violating packet, publish handler error, protocol handler error, keep-alive expiry, sink.close(), sink.force_close()); the cause is injected before/after every step of the base schedule at quiescence and, with {} deviation(s), between any two task polls; afterwards virtual time advances up to 60 s and gates are never opened; oracle: exactly one Stop of the class the statement assigns to the cause, connection task completed, every send/ready future resolved, blocked reader saw an error or was cancelled, handlers cancelled only after the Stop was handled, nothing left executing",
         ecfg.max_dev
     );
     ck.assumptions = vec![
